@@ -37,6 +37,7 @@ type GenOpts struct {
 	SliceSvc         bool // services whose own type is the unnamed slice type []I0 (plain or named), next to groups over I0
 	Ghosts           bool // registrations that are added and removed again while the collection is assembled
 	GroupBridge      bool // a consumer -> group -> member -> chain of singletons family whose only ordering path runs through the group
+	StandIns         bool // a registration replaces a stand-in that was registered under its identity some calls earlier and removed right before
 	BuildModes       bool // Build / BuildWithContext (cancellable, cancelled afterwards) / BuildWithOptions (timeout)
 	SameOuts         bool // a multi-return constructor that hands back one instance under two declared types
 	SigTwins         bool // a second registration with the very signature of another one (shared analysis), other lifetime, other group/name
@@ -45,7 +46,7 @@ type GenOpts struct {
 
 func FullOpts() GenOpts {
 	return GenOpts{MinRegs: 1, MaxRegs: 9, Multi: true, Out: true, OutGroupFields: true, Instance: true, Void: true, As: true, MultiAs: true,
-		Groups: true, Keys: true, MultiGroup: true, OptionalMissing: true, Builtins: true, Err: true, Iface: true, MaxDeps: 3, NilOuts: true, AltImpl: true, Drops: true, PreBuild: true, NamedVoid: true, VoidAnyLife: true, EmbedIn: true, SliceSvc: true, Ghosts: true, SigTwins: true, GroupBridge: true, SameOuts: true, BuildModes: true}
+		Groups: true, Keys: true, MultiGroup: true, OptionalMissing: true, Builtins: true, Err: true, Iface: true, MaxDeps: 3, NilOuts: true, AltImpl: true, Drops: true, PreBuild: true, NamedVoid: true, VoidAnyLife: true, EmbedIn: true, SliceSvc: true, Ghosts: true, SigTwins: true, GroupBridge: true, SameOuts: true, BuildModes: true, StandIns: true}
 }
 
 // NeverType is a concrete type id that generated configurations never provide.
@@ -549,6 +550,17 @@ func GenConfig(t *rapid.T, o GenOpts) *Config {
 	}
 	if o.PreBuild && len(cfg.Regs) >= 2 && rapid.IntRange(0, 3).Draw(t, "prebuild") == 0 {
 		cfg.PreBuild = rapid.IntRange(1, len(cfg.Regs)-1).Draw(t, "prebuildN")
+	}
+	if o.StandIns {
+		for i := range cfg.Regs {
+			r := &cfg.Regs[i]
+			if (r.Form != FormPlain && r.Form != FormInstance) || len(r.As) > 0 || r.Group != "" || len(r.After) > 0 || len(r.Dropped) > 0 || r.HasCtorOf {
+				continue
+			}
+			if rapid.IntRange(0, 6).Draw(t, "standin") == 0 {
+				r.StandIn, r.StandInLead, r.StandInLife = true, rapid.IntRange(1, 4).Draw(t, "standinLead"), rapid.IntRange(0, 2).Draw(t, "standinLife")
+			}
+		}
 	}
 	if o.BuildModes {
 		cfg.BuildMode = rapid.SampledFrom([]int{0, 0, 0, 1, 2}).Draw(t, "buildMode")
